@@ -22,7 +22,8 @@ type Graph struct {
 	nodeAt map[ast.Node]nodeLoc
 	live   map[*cfg.Block]bool
 
-	factsCache *Solution[Facts]
+	factsCache   *Solution[Facts]
+	factsPSCache *Solution[FactsPS]
 }
 
 type nodeLoc struct {
